@@ -16,7 +16,9 @@ def compactGroups (els : List (String × ρ)) : List (ρ × List String) :=
   els.foldl (fun gs e => addToGroups e.1 e.2 gs) []
 
 /-- is `pat` a substring of `s` -/
-def isSub (pat s : List Char) : Bool := (List.range (s.length + 1)).any fun i => pat.isPrefixOf (s.drop i)
+def isSub (pat : List Char) : List Char → Bool
+  | [] => pat.isPrefixOf []
+  | c :: cs => pat.isPrefixOf (c :: cs) || isSub pat cs
 
 def insertS (x : String) : List String → List String
   | [] => [x]
